@@ -460,9 +460,18 @@ func (e *Exec) visitInstr(fr *frame, instr ssa.Instruction) continuation {
 			fr.set(instr, Ptr{})
 		} else {
 			if s.off != 0 || e.arrayLenAt(s.obj, s.path) != n {
-				panic(e.unsupported("SliceToArrayPointer on a sub-slice"))
+				// a window into a larger array: the conversion [N]T(s) loads it at once, so a read-only
+				// snapshot object stands for the window (a store through it aborts the path)
+				arr := &Agg{elems: make([]Value, n)}
+				for i, x := range e.sliceElems(s)[:n] {
+					arr.elems[i] = e.copyVal(x)
+				}
+				obj := e.newObject(deref(instr.Type()), arr, "array window")
+				obj.frozen = true
+				fr.set(instr, Ptr{obj: obj})
+			} else {
+				fr.set(instr, Ptr{obj: s.obj, path: s.path})
 			}
-			fr.set(instr, Ptr{obj: s.obj, path: s.path})
 		}
 	case *ssa.MakeInterface:
 		fr.set(instr, Iface{t: instr.X.Type(), v: fr.get(instr.X)})
